@@ -11,6 +11,11 @@
     (the Go functions parse the whole input before the first edit: regenerated fact `Facts.parseBeforeEdit`, checked by
     `parse_before_edit`).
 
+  * `reader_dispatch_as_modelled` — regenerated fact `Facts.readerEdits`: for every function of the three reader files,
+    every branch on the kind of a parsed node (case clause / `if x, ok := n.(*T)`) with the model edits written
+    directly in it, in source order, equals the table the reader models were written from: a statement kind that gains,
+    loses or reorders an edit breaks this theorem on the next run, whether or not a generated script exercises it.
+
   * `load_keeps_inv` — every load (any dialect, any split into calls) from the empty model ends in a state whose
     slices and position maps agree (`Migration.Inv`), under the side condition that a RENAME targets a name the table
     does not hold; `rename_onto_existing_breaks` shows the condition is needed: the Go bookkeeping (and the model)
@@ -218,6 +223,78 @@ example : (execAll true [] exPg).map ReaderMysql.typedSpec =
     some [("t", [("b", some "STRING"), ("c", some "INT8")]), ("u", [("x", some "INT8")])] := by decide
 example : (ReaderPg.run {} exPg).toOption.map ReaderMysql.typedView =
     some [("t", [("b", some "STRING"), ("c", some "INT8")]), ("u", [("x", some "INT8")])] := by rfl
+
+/-- what the hand-written reader models (Impl/ReaderMysql, ReaderPg, ReaderSqlite) are models of: for every function of
+    the three reader files, every branch on the kind of a parsed node with the model edits written directly in it, in
+    source order.  Reviewed against the models entry by entry; e.g. `AlterTableDropNotNull` edits nothing
+    (`ReaderPg.step (.dropNotNull ..) = pure m`), `AlterTableAlterColumnType` and `AlterTableSetDefault` are one
+    `AddColumn` each, `CreateIndex` / `DropIndex` go through the cursor's table. -/
+def expectedReaderEdits : List (String × String × List String) := [
+
+  ("mysql.ParserMysql", "/ast.DDLNode", []),
+  ("mysql.Enter", "/*ast.TableName", ["Using"]),
+  ("mysql.Enter", "/*ast.DropTableStmt", ["RemoveTable"]),
+  ("mysql.Enter", "/*ast.AlterTableStmt", []),
+  ("mysql.Enter", "/*ast.AlterTableStmt/ast.AlterTableAddColumns", ["SetColumnPosition"]),
+  ("mysql.Enter", "/*ast.AlterTableStmt/ast.AlterTableAddConstraint", []),
+  ("mysql.Enter", "/*ast.AlterTableStmt/ast.AlterTableAddConstraint/ast.ConstraintPrimaryKey", ["AddIndex", "AddColumn"]),
+  ("mysql.Enter", "/*ast.AlterTableStmt/ast.AlterTableAddConstraint/ast.ConstraintForeignKey", ["AddForeignKey"]),
+  ("mysql.Enter", "/*ast.AlterTableStmt/ast.AlterTableDropColumn", ["RemoveColumn"]),
+  ("mysql.Enter", "/*ast.AlterTableStmt/ast.AlterTableDropPrimaryKey", ["RemoveIndex"]),
+  ("mysql.Enter", "/*ast.AlterTableStmt/ast.AlterTableDropIndex", ["RemoveIndex"]),
+  ("mysql.Enter", "/*ast.AlterTableStmt/ast.AlterTableDropForeignKey", ["RemoveForeignKey"]),
+  ("mysql.Enter", "/*ast.AlterTableStmt/ast.AlterTableModifyColumn", ["AddColumn"]),
+  ("mysql.Enter", "/*ast.AlterTableStmt/ast.AlterTableRenameColumn", ["RenameColumn"]),
+  ("mysql.Enter", "/*ast.AlterTableStmt/ast.AlterTableRenameTable", ["RenameTable"]),
+  ("mysql.Enter", "/*ast.AlterTableStmt/ast.AlterTableRenameIndex", ["RenameIndex"]),
+  ("mysql.Enter", "/*ast.DropIndexStmt", ["RemoveIndex"]),
+  ("mysql.Enter", "/*ast.CreateTableStmt", ["Using", "AddTable"]),
+  ("mysql.Enter", "/*ast.CreateTableStmt/ast.ConstraintPrimaryKey", []),
+  ("mysql.Enter", "/*ast.CreateTableStmt/ast.ConstraintKey,ast.ConstraintIndex", []),
+  ("mysql.Enter", "/*ast.CreateTableStmt/ast.ConstraintUniq,ast.ConstraintUniqKey,ast.ConstraintUniqIndex", []),
+  ("mysql.Enter", "/*ast.ColumnDef", ["AddColumn"]),
+  ("mysql.Enter", "/*ast.ColumnDef/ast.ValueExpr", []),
+  ("mysql.Enter", "/*ast.CreateIndexStmt", ["AddIndex"]),
+  ("postgresql.walker", "/*tree.CreateTable", ["AddTable", "Using"]),
+  ("postgresql.walker", "/*tree.ColumnTableDef", ["AddColumn", "AddIndex"]),
+  ("postgresql.walker", "/*tree.CommentOnColumn", ["AddComment"]),
+  ("postgresql.walker", "/*tree.CreateIndex", ["AddIndex"]),
+  ("postgresql.walker", "/*tree.DropIndex", ["RemoveIndex"]),
+  ("postgresql.walker", "/*tree.AlterTable", []),
+  ("postgresql.walker", "/*tree.AlterTable/*tree.AlterTableRenameTable", ["RenameTable"]),
+  ("postgresql.walker", "/*tree.AlterTable/*tree.AlterTableRenameColumn", ["RenameColumn"]),
+  ("postgresql.walker", "/*tree.AlterTable/*tree.AlterTableRenameConstraint", ["RenameIndex"]),
+  ("postgresql.walker", "/*tree.AlterTable/*tree.AlterTableAddColumn", ["AddColumn", "AddIndex"]),
+  ("postgresql.walker", "/*tree.AlterTable/*tree.AlterTableDropColumn", ["RemoveColumn"]),
+  ("postgresql.walker", "/*tree.AlterTable/*tree.AlterTableDropNotNull", []),
+  ("postgresql.walker", "/*tree.AlterTable/*tree.AlterTableAlterColumnType", ["AddColumn"]),
+  ("postgresql.walker", "/*tree.AlterTable/*tree.AlterTableSetDefault", ["AddColumn"]),
+  ("postgresql.walker", "/*tree.AlterTable/*tree.AlterTableAddConstraint", []),
+  ("postgresql.walker", "/*tree.AlterTable/*tree.AlterTableAddConstraint/*tree.UniqueConstraintTableDef", ["AddIndex"]),
+  ("postgresql.walker", "/*tree.AlterTable/*tree.AlterTableAddConstraint/*tree.ForeignKeyConstraintTableDef", ["AddForeignKey"]),
+  ("postgresql.walker", "/*tree.AlterTable/*tree.AlterTableDropConstraint", ["RemoveForeignKey", "RemoveIndex"]),
+  ("postgresql.walker", "/*tree.RenameTable", ["RenameTable"]),
+  ("postgresql.postgresColumn", "/n.PrimaryKey.IsPrimaryKey", []),
+  ("postgresql.postgresColumn", "/n.Unique", []),
+  ("postgresql.postgresColumn", "/n.References.Table != nil", []),
+  ("sqlite.Visit", "/*sqlite.CreateTableStatement", ["AddTable", "Using", "AddColumn"]),
+  ("sqlite.Visit", "/*sqlite.CreateTableStatement/*sqlite.UniqueConstraint", ["AddIndex"]),
+  ("sqlite.Visit", "/*sqlite.CreateTableStatement/*sqlite.ForeignKeyConstraint", []),
+  ("sqlite.Visit", "/*sqlite.CreateIndexStatement", ["AddIndex"]),
+  ("sqlite.Visit", "/*sqlite.DropTableStatement", ["RemoveTable"]),
+  ("sqlite.Visit", "/*sqlite.DropIndexStatement", []),
+  ("sqlite.Visit", "/*sqlite.AlterTableStatement", []),
+  ("sqlite.Visit", "/*sqlite.AlterTableStatement/n.Rename.IsValid()", ["RenameTable"]),
+  ("sqlite.Visit", "/*sqlite.AlterTableStatement/n.RenameColumn.IsValid()", ["RenameColumn"]),
+  ("sqlite.Visit", "/*sqlite.AlterTableStatement/n.AddColumn.IsValid()", ["AddColumn"]),
+  ("sqlite.parseSqliteConstrains", "/*sqlite.PrimaryKeyConstraint", []),
+  ("sqlite.parseSqliteConstrains", "/*sqlite.NotNullConstraint", []),
+  ("sqlite.parseSqliteConstrains", "/*sqlite.UniqueConstraint", ["AddIndex"]),
+  ("sqlite.parseSqliteConstrains", "/*sqlite.CheckConstraint", []),
+  ("sqlite.parseSqliteConstrains", "/*sqlite.DefaultConstraint", [])]
+
+/-- regenerated fact: the readers' dispatch tables are the ones the reader models were written from -/
+theorem reader_dispatch_as_modelled : Facts.readerEdits = expectedReaderEdits := by decide
 
 /-- regenerated fact: in every `Parser*` function the parse call and its `return err` precede the first edit -/
 theorem parse_before_edit : ∀ p ∈ Facts.parseBeforeEdit, p.2 = true := by decide
